@@ -157,4 +157,37 @@ CHECKS = {
         "quick": [T("TestC14", 8, 300, steps=30)],
         "thorough": [T("TestC14", 16, 12000, steps=30, timeout=3000)],
     },
+    "C09": {
+        "level": "exploration",
+        "rule": ("rapid state machine on a real node (std world): execute generated blocks (0-25 transactions of the full "
+                 "grammar, empty blocks), roll back through the ledger API (+reopen) or by handing the executor a block for an "
+                 "already executed height, re-execute the same or different blocks, refused rollbacks, reopen. Oracle after every "
+                 "step, recomputed from what the getters return: block hash == sha256 of the header projection, parent hash == "
+                 "hash(h-1), tx root / receipt root == Merkle root of stored transactions / receipts, GetBlockByHash, "
+                 "GetBlockHash, GetTransaction, GetTransactionMeta(height, index, block hash), GetReceipt agree with what was "
+                 "executed, chain meta == (head, head hash, sum of delivery counts); nothing answers for heights above the head "
+                 "or for block/transaction hashes that only existed on an abandoned fork; re-executed blocks reproduce their "
+                 "hashes. Non-trivial = a rollback over >=2 blocks followed by a continuation; distinct = hash of history."),
+        "assumptions": ["a transaction hash occurring in two blocks is out of the domain (ordering forbids it)",
+                        "receipt hash and header marshalling are taken from bitxhub-model (the definition of the committed bytes)"],
+        "quick": [T("TestC09", 8, 60, steps=25)],
+        "thorough": [T("TestC09", 16, 2500, steps=40, timeout=3000)],
+    },
+    "C12": {
+        "level": "exploration",
+        "rule": ("two rapid state machines. Ledger level: blocks of generated writes on the real SimpleLedger/leveldb (set, "
+                 "overwrite, delete, delete-recreate, non-journaled add, balance/nonce/code, touch-without-change, keys first "
+                 "written in the rolled-back span, binary non-UTF-8 keys, cache sizes production/2), FlushDirtyData+Commit, "
+                 "RollbackState to every target inside the journal window, repeated rollbacks, same or different continuation, "
+                 "reopen, refused targets (higher / beyond the window). Executor level: generated transaction histories on a real "
+                 "node with Ledger.Rollback(+reopen) and executor-triggered rollback. Oracle: raw leveldb dump after the rollback "
+                 "== dump recorded when that height was committed (all account/code/storage keys), Version()==target, re-applying "
+                 "the recorded blocks reproduces recorded roots/block hashes, refusals return exactly ErrorRollbackToHigherNumber/"
+                 "ErrorRollbackTooMuch and change nothing. Non-trivial = rolled-back span contains a delete-recreate or a first "
+                 "write (ledger) or spans >=2 blocks with a continuation (executor)."),
+        "assumptions": ["journal bookkeeping keys (journal-*) are excluded from the dump comparison",
+                        "the retained window is 10 blocks below the highest head ever committed"],
+        "quick": [T("TestC12Ledger", 6, 500, steps=35), T("TestC12Exec", 6, 40, steps=25)],
+        "thorough": [T("TestC12Ledger", 8, 20000, steps=50, timeout=3000), T("TestC12Exec", 8, 1500, steps=35, timeout=3000)],
+    },
 }
